@@ -120,6 +120,21 @@ func refSwap(c *swapCase) string {
 
 func runSwapCase(ctx sdk.Context, c *swapCase, out *Out, stats map[string]int) {
 	pool := mkSwapPool(c)
+	// the per-block snapshot argument: for a non-oracle pool nothing may depend on it. Half of the cases get the pool itself, the
+	// other half the pool as it might have looked at the start of the block (reserves moved by earlier swaps of the same block)
+	snapPool := pool
+	snapVariant := int(new(big.Int).Mod(new(big.Int).Add(c.amt, c.balIn), big.NewInt(6)).Int64())
+	if snapVariant > 2 {
+		c2 := *c
+		f := [][2]int64{{9, 10}, {11, 10}, {1, 2}}[snapVariant-3]
+		c2.balIn = new(big.Int).Quo(new(big.Int).Mul(c.balIn, big.NewInt(f[0])), big.NewInt(f[1]))
+		c2.balOut = new(big.Int).Quo(new(big.Int).Mul(c.balOut, big.NewInt(f[1])), big.NewInt(f[0]))
+		if c2.balIn.Sign() > 0 && c2.balOut.Sign() > 0 {
+			snapPool = mkSwapPool(&c2)
+			stats["swap/snapshot-differs-from-pool"]++
+		}
+	}
+	snapshot := &snapPool
 	inDenom, outDenom := c.denoms()
 	acc := accStub{denoms: []string{inDenom, outDenom}, amts: []sdkmath.Int{sdkmath.NewIntFromBigInt(c.accIn), sdkmath.NewIntFromBigInt(c.accOut)}}
 	var amount sdkmath.Int
@@ -130,16 +145,16 @@ func runSwapCase(ctx sdk.Context, c *swapCase, out *Out, stats map[string]int) {
 		if c.fn == "out" {
 			tokens := sdk.Coins{sdk.Coin{Denom: inDenom, Amount: sdkmath.NewIntFromBigInt(c.amt)}}
 			if c.viaSwap {
-				coin, slip, _, _, _, err = pool.SwapOutAmtGivenIn(ctx, nil, &pool, tokens, outDenom, c.fee, acc, sdkmath.LegacyOneDec(), ammtypes.DefaultParams())
+				coin, slip, _, _, _, err = pool.SwapOutAmtGivenIn(ctx, nil, snapshot, tokens, outDenom, c.fee, acc, sdkmath.LegacyOneDec(), ammtypes.DefaultParams())
 			} else {
-				coin, slip, err = pool.CalcOutAmtGivenIn(ctx, nil, &pool, tokens, outDenom, c.fee, acc)
+				coin, slip, err = pool.CalcOutAmtGivenIn(ctx, nil, snapshot, tokens, outDenom, c.fee, acc)
 			}
 		} else {
 			tokens := sdk.Coins{sdk.Coin{Denom: outDenom, Amount: sdkmath.NewIntFromBigInt(c.amt)}}
 			if c.viaSwap {
-				coin, slip, _, _, _, err = pool.SwapInAmtGivenOut(ctx, nil, &pool, tokens, inDenom, c.fee, acc, sdkmath.LegacyOneDec(), ammtypes.DefaultParams())
+				coin, slip, _, _, _, err = pool.SwapInAmtGivenOut(ctx, nil, snapshot, tokens, inDenom, c.fee, acc, sdkmath.LegacyOneDec(), ammtypes.DefaultParams())
 			} else {
-				coin, slip, err = pool.CalcInAmtGivenOut(ctx, nil, &pool, tokens, inDenom, c.fee, acc)
+				coin, slip, err = pool.CalcInAmtGivenOut(ctx, nil, snapshot, tokens, inDenom, c.fee, acc)
 			}
 		}
 		if err != nil {
@@ -478,12 +493,12 @@ type oAsset struct {
 }
 
 type oCase struct {
-	fn     string // oout | oin
-	stream string
-	a      [2]oAsset
-	iIn    int
-	amt    *big.Int
-	fee    sdkmath.LegacyDec
+	fn                                                   string // oout | oin
+	stream                                               string
+	a                                                    [2]oAsset
+	iIn                                                  int
+	amt                                                  *big.Int
+	fee                                                  sdkmath.LegacyDec
 	exponent, multiplier, portion, threshold, perpFactor sdkmath.LegacyDec
 }
 
@@ -546,7 +561,7 @@ func runOracleCase(ctx sdk.Context, c *oCase, out *Out, stats map[string]int) {
 	line := map[string]any{"t": "c03.case", "fn": c.fn, "stream": c.stream, "a0": c.a[0].arr(), "a1": c.a[1].arr(), "iIn": c.iIn,
 		"amt": c.amt.String(), "fee": c.fee.BigInt().String(),
 		"params": []string{c.exponent.BigInt().String(), c.multiplier.BigInt().String(), c.portion.BigInt().String(), c.threshold.BigInt().String(), c.perpFactor.BigInt().String()},
-		"res": kind}
+		"res":    kind}
 	if kind == "ok" {
 		line["amount"] = amount.String()
 		line["slip"] = slip.BigInt().String()
